@@ -275,6 +275,107 @@ pub fn c08_difference_ref<const N: usize, const M: usize>() {
     vf::check(a.len() == am.n && b.len() == bm.n, 811);
 }
 
+fn same_bytes(buf: &[u8; 3], a: (usize, usize), b: (usize, usize)) -> bool {
+    if a.1 - a.0 != b.1 - b.0 { return false; }
+    let mut i = 0;
+    while i < 3 { if i < a.1 - a.0 && buf[a.0 + i] != buf[b.0 + i] { return false; } i += 1; }
+    true
+}
+
+/// difference_ref on sets of *unsized* references: `Set<&[u8], N>` whose elements are solver-chosen sub-slices `&buf[s..e]`
+/// of ONE solver-chosen buffer, so that two elements may start at the same address with different lengths, overlap, or be
+/// equal in content at different addresses.  Membership is decided by content (`<[u8] as PartialEq>`), never by address.
+pub fn c08_difference_ref_slices<const N: usize, const M: usize>() {
+    let mut buf = [0u8; 3];
+    let mut i = 0;
+    while i < 3 { buf[i] = vf::any_u8(); i += 1; }
+    let mut a: Set<&[u8], N> = empty_set();
+    let mut b: Set<&[u8], M> = empty_set();
+    let (mut ae, mut be) = ([(0usize, 0usize); N], [(0usize, 0usize); M]);
+    let (mut na, mut nb) = (0usize, 0usize);
+    let mut i = 0;
+    while i < N {
+        let (s, e, take) = (vf::any_usize(), vf::any_usize(), vf::any_bool());
+        if take {
+            vf::assume(s <= e && e <= 3);
+            let mut j = 0;
+            while j < N { if j < na { vf::assume(!same_bytes(&buf, ae[j], (s, e))); } j += 1; }
+            ae[na] = (s, e); na += 1;
+            vf::check(a.insert(&buf[s..e]), 100);
+        }
+        i += 1;
+    }
+    let mut i = 0;
+    while i < M {
+        let (s, e, take) = (vf::any_usize(), vf::any_usize(), vf::any_bool());
+        if take {
+            vf::assume(s <= e && e <= 3);
+            let mut j = 0;
+            while j < M { if j < nb { vf::assume(!same_bytes(&buf, be[j], (s, e))); } j += 1; }
+            be[nb] = (s, e); nb += 1;
+            vf::check(b.insert(&buf[s..e]), 100);
+        }
+        i += 1;
+    }
+    // the mathematical result, by content
+    let mut inb = [false; N];
+    let mut want_total = 0usize;
+    let mut i = 0;
+    while i < N {
+        if i < na {
+            let mut j = 0;
+            while j < M { if j < nb && same_bytes(&buf, ae[i], be[j]) { inb[i] = true; } j += 1; }
+            if !inb[i] { want_total += 1; }
+        }
+        i += 1;
+    }
+    let p = vf::any_usize();   // probe: one element of a, identified by address and length
+    vf::assume(N == 0 || p < N);
+    let j = vf::any_usize();
+    let base = buf.as_ptr() as usize;
+    let mut it = a.difference_ref(&b);
+    let (mut cnt, mut total) = (0usize, 0usize);
+    let mut acc_step: u32 = 7;
+    let mut phase = 0;
+    while phase < 2 {
+        let mut i = 0usize;
+        while i <= N {
+            if phase == 1 || i < j {
+                if let Some(x) = it.next() {
+                    total += 1;
+                    let (xs, xl) = (x.as_ptr() as usize - base, x.len());
+                    if N > 0 && p < na && xs == ae[p].0 && xl == ae[p].1 - ae[p].0 { cnt += 1; }
+                    // every yielded item is one of the left operand's own elements (same address, same length) ...
+                    let mut k = 0;
+                    let mut own = false;
+                    while k < N { if k < na && xs == ae[k].0 && xl == ae[k].1 - ae[k].0 && !inb[k] { own = true; } k += 1; }
+                    vf::check(own, 804);
+                    acc_step = acc_step.rotate_left(3) ^ ((xs * 4 + xl) as u32);
+                }
+            }
+            i += 1;
+        }
+        if phase == 0 {
+            let (lo, hi) = it.size_hint();
+            // DifferenceRef over an unsized T is not Clone: count the rest on a second iterator advanced equally far
+            let mut it2 = a.difference_ref(&b);
+            let mut sk = 0;
+            while sk < N { if sk < total { let _ = it2.next(); } sk += 1; }
+            let rest = it2.count();
+            vf::check(lo <= rest && match hi { Some(h) => rest <= h, None => true }, 801);
+        }
+        phase += 1;
+    }
+    vf::check(it.next().is_none(), 606);
+    vf::check(total == want_total, 803);
+    if N > 0 && p < na { vf::check(cnt == (!inb[p]) as usize, 802); }
+    let acc_fold = a.difference_ref(&b).fold(7u32, |acc, x| acc.rotate_left(3) ^ (((x.as_ptr() as usize - base) * 4 + x.len()) as u32));
+    vf::check(acc_fold == acc_step, 805);
+    if want_total > 0 { vf::reach(1); } else { vf::reach(2); }
+    if na > want_total { vf::reach(3); }
+    vf::check(a.len() == na && b.len() == nb, 811);
+}
+
 pub fn c08_predicates<const N: usize, const M: usize>() {
     let (a, am) = any_u8_set::<N>();
     let (b, bm) = any_u8_set::<M>();
@@ -343,7 +444,21 @@ pub fn c14_partial<const N: usize>() {
     vf::check((m == mc) == vals_ok && (mc == m) == vals_ok, 820);
     vf::check((s == sc) == keys_ok && (sc == s) == keys_ok, 820);
     if vals_ok && keys_ok { vf::reach(1); } else { vf::reach(2); }
+    // a ZERO-SIZED value type whose `==` still has an answer of its own (here: a solver-chosen flag, constant during the
+    // comparison): "carries no data" does not mean "always equal"
+    let mut z: Map<u8, Zf, N> = empty_map();
+    for (k, _) in a.iter() { vf::check(z.insert(*k, Zf).is_none(), 100); }
+    let zc = z.clone();
+    let f = vf::any_bool();
+    unsafe { ZF_EQ = f; }
+    let want = f || am.n == 0;
+    vf::check((z == zc) == want && (zc == z) == want && (z != zc) == !want && (z == z) == want, 820);
+    if f { vf::reach(3); } else { vf::reach(4); }
 }
+static mut ZF_EQ: bool = true;
+#[derive(Clone, Copy)]
+pub struct Zf;
+impl PartialEq for Zf { #[inline(never)] fn eq(&self, _: &Zf) -> bool { unsafe { ZF_EQ } } }
 pub fn c14_set<const N: usize, const M: usize>() {
     let (a, am) = any_u8_set::<N>();
     let (b, bm) = any_u8_set::<M>();
@@ -369,12 +484,14 @@ harnesses! {
     c08_provided: [2, 2, 4] [2, 2, 5] [2, 2, 6] [2, 2, 7] [2, 2, 8] [2, 2, 9] [2, 2, 10] [2, 2, 11] [1, 1, 0] [1, 1, 1] [1, 1, 2] [1, 1, 3] [1, 1, 12] [1, 1, 13] [1, 1, 14] [1, 1, 15] [2, 1, 0] [2, 1, 1] [2, 1, 2] [2, 1, 13];
     c08_sub: [0, 0] [1, 1] [2, 2] [3, 3] [1, 3] [3, 1];
     c08_difference_ref: [1, 1] [2, 2] [3, 2] [2, 3];
+    c08_difference_ref_slices: [1, 1] [2, 1] [2, 2];
     c08_predicates: [0, 0] [1, 1] [2, 2] [3, 3] [1, 3] [3, 1] [0, 2] [2, 0];
     c14_map: [0, 0] [1, 1] [2, 2] [3, 3] [1, 3] [3, 1] [0, 2] [2, 0] [2, 3];
     c14_partial: [1] [2] [3];
     c14_set: [0, 0] [1, 1] [2, 2] [3, 3] [1, 3] [3, 1] [0, 2] [2, 0] [2, 3];
     @deep
     c14_partial: [4];
+    c08_difference_ref_slices: [3, 2] [2, 3];
     c08_union: [4, 4] [4, 2] [2, 4];
     c08_intersection: [4, 4] [4, 2] [2, 4];
     c08_difference: [4, 4] [4, 2] [2, 4];
